@@ -197,10 +197,12 @@ func c09Explore(c *Ctx, stream string) {
 		c09Core(c, stream)
 	case "symbolize":
 		c09Symbolize(c)
+	case "e2e-session", "e2e-cli", "e2e-web", "e2e-lines":
+		c09E2E(c, stream)
 	case "matrix-session-0", "matrix-session-1", "matrix-session-2", "matrix-cli", "matrix-web":
 		c09Matrix(c, stream)
 	case "session-real":
-		for k := 0; k < c.Budget(400, 20000); k++ {
+		for k := 0; k < c.Budget(300, 20000); k++ {
 			p := c09Profile(r, false)
 			var lines []string
 			for j := 1 + r.Intn(4); j > 0; j-- {
@@ -295,7 +297,7 @@ func c09Explore(c *Ctx, stream string) {
 			}
 			c09CLI(c, "cli-mean", p, append(args, "p"), nil)
 		}
-		for k := 0; k < c.Budget(400, 15000); k++ {
+		for k := 0; k < c.Budget(300, 15000); k++ {
 			p := c09Profile(r, true)
 			var args []string
 			if !r.P(1, 8) {
